@@ -152,6 +152,19 @@ pub fn run(o: &Opts) -> Report {
             (mk5(), bv(&["prog"]), Box::new(|m| { want_source(m, "level", Some(clap::parser::ValueSource::DefaultValue))?; want_occs(m, &[], "level", &[&["info"]]) })),
         ];
         run_expect(&mut rep, o, "value-invented-for-a-present-argument", cases5);
+        // positionals are filled in INDEX order, whatever order they were declared in
+        let mk6 = |multi_last: bool| { let mut c = CmdS { name: "cp".into(), ..Default::default() };
+            c.args.push(ArgS { id: "dest".into(), index: Some(2), num_vals: if multi_last { Some((1, None)) } else { None }, ..Default::default() });
+            c.args.push(ArgS { id: "force".into(), short: Some('f'), action: Some("setTrue"), ..Default::default() });
+            c.args.push(ArgS { id: "src".into(), index: Some(1), ..Default::default() });
+            c };
+        let cases6: Vec<(CmdS, Vec<Vec<u8>>, Expect)> = vec![
+            (mk6(false), bv(&["cp", "a.txt", "b.txt"]), Box::new(|m| { want_occs(m, &[], "src", &[&["a.txt"]])?; want_occs(m, &[], "dest", &[&["b.txt"]]) })),
+            (mk6(false), bv(&["cp", "-f", "a.txt", "--", "b.txt"]), Box::new(|m| { want_occs(m, &[], "src", &[&["a.txt"]])?; want_occs(m, &[], "dest", &[&["b.txt"]]) })),
+            (mk6(true), bv(&["cp", "a.txt", "b.txt", "c.txt"]), Box::new(|m| { want_occs(m, &[], "src", &[&["a.txt"]])?; want_occs(m, &[], "dest", &[&["b.txt", "c.txt"]]) })),
+            (mk6(true), bv(&["cp", "a.txt"]), Box::new(|m| { want_occs(m, &[], "src", &[&["a.txt"]])?; want_occs(m, &[], "dest", &[]) })),
+        ];
+        run_expect(&mut rep, o, "positional-filled-out-of-index-order", cases6);
     }
     crate::pcorr::run_generic(&mut rep, o, 0xC02);
     rep
